@@ -382,6 +382,10 @@ func runC16(p *core.Prog, r *core.Report, tier string) {
 					if c.Op == "" || c.X == nil || c.Y == nil {
 						return -1
 					}
+					// numerator >= denominator: the quotient is at least 1
+					if e := numeratorNotBelowDenominator(ds, c, q); e >= 0 {
+						return e
+					}
 					var o, k *core.VD
 					if c.Y.Kind == "const" {
 						o, k = c.X, c.Y
@@ -986,4 +990,31 @@ func nonNilOnLeaf(ds *core.Describer, fn *ssa.Function, lf core.Leaf, depth int)
 		return true
 	}
 	return false
+}
+
+// numeratorNotBelowDenominator: the edge of a comparison between the two operands of the quotient q on which
+// numerator >= denominator holds (the quotient is then at least 1), or -1.
+func numeratorNotBelowDenominator(ds *core.Describer, c core.Cond, q *ssa.BinOp) int {
+	if c.X == nil || c.Y == nil {
+		return -1
+	}
+	flip := false
+	num, den := ds.D(q.X).String(), ds.D(q.Y).String()
+	switch {
+	case (c.X.Val == q.X || c.X.String() == num) && (c.Y.Val == q.Y || c.Y.String() == den):
+	case (c.X.Val == q.Y || c.X.String() == den) && (c.Y.Val == q.X || c.Y.String() == num):
+		flip = true
+	default:
+		return -1
+	}
+	for e := 0; e < 2; e++ {
+		rel := c.RelOnEdge(e)
+		if flip {
+			rel = core.FlipRel(rel)
+		}
+		if rel == ">=" || rel == ">" {
+			return e
+		}
+	}
+	return -1
 }
